@@ -1,8 +1,9 @@
 package main
 
-// yieldify: rewrites a Go source file so that every statement of every function body is
-// preceded by a call to vYieldHook(). Used only for the native replay of interleaving
-// counterexamples: the copy is generated from the current tree and supplied by -overlay.
+// rewrite: produces an instrumented copy of a Go source file for native replay only (the
+// copy is generated from the current tree and supplied to `go test` by -overlay):
+//   -now    every call time.Now() becomes zzverifhook.Now()   (deterministic replay clock)
+//   -yield  every statement is preceded by zzverifhook.Yield() (scheduler perturbation)
 
 import (
 	"bytes"
@@ -11,37 +12,73 @@ import (
 	"go/parser"
 	"go/token"
 	"os"
+
+	"golang.org/x/tools/go/ast/astutil"
 )
 
-func yieldifyFile(in, out string) error {
+const hookPkg = "github.com/yandex/pandora/lib/zzverifhook"
+
+func rewriteFile(in, out string, doNow, doYield bool) error {
 	fset := token.NewFileSet()
 	f, err := parser.ParseFile(fset, in, nil, parser.ParseComments)
 	if err != nil {
 		return err
 	}
-	hook := func() ast.Stmt {
-		return &ast.ExprStmt{X: &ast.CallExpr{Fun: ast.NewIdent("vYieldHook")}}
-	}
-	var rewriteList func(list []ast.Stmt) []ast.Stmt
-	rewriteList = func(list []ast.Stmt) []ast.Stmt {
-		var outl []ast.Stmt
-		for _, s := range list {
-			outl = append(outl, hook(), s)
+	used := false
+	if doNow {
+		timeName := ""
+		for _, imp := range f.Imports {
+			if imp.Path.Value == `"time"` {
+				timeName = "time"
+				if imp.Name != nil {
+					timeName = imp.Name.Name
+				}
+			}
 		}
-		return outl
-	}
-	ast.Inspect(f, func(n ast.Node) bool {
-		switch n := n.(type) {
-		case *ast.BlockStmt:
-			n.List = rewriteList(n.List)
-		case *ast.CaseClause:
-			n.Body = rewriteList(n.Body)
-		case *ast.CommClause:
-			n.Body = rewriteList(n.Body)
+		if timeName != "" {
+			astutil.Apply(f, func(c *astutil.Cursor) bool {
+				if call, ok := c.Node().(*ast.CallExpr); ok && len(call.Args) == 0 {
+					if sel, ok := call.Fun.(*ast.SelectorExpr); ok && sel.Sel.Name == "Now" {
+						if id, ok := sel.X.(*ast.Ident); ok && id.Name == timeName && id.Obj == nil {
+							sel.X = ast.NewIdent("zzverifhook")
+							used = true
+						}
+					}
+				}
+				return true
+			}, nil)
 		}
-		return true
-	})
-	// comments would be misplaced by the insertion; drop them (the copy is never read by people)
+	}
+	if doYield {
+		hook := func() ast.Stmt {
+			return &ast.ExprStmt{X: &ast.CallExpr{Fun: &ast.SelectorExpr{X: ast.NewIdent("zzverifhook"), Sel: ast.NewIdent("Yield")}}}
+		}
+		rewriteList := func(list []ast.Stmt) []ast.Stmt {
+			var outl []ast.Stmt
+			for _, s := range list {
+				outl = append(outl, hook(), s)
+				used = true
+			}
+			return outl
+		}
+		ast.Inspect(f, func(n ast.Node) bool {
+			switch n := n.(type) {
+			case *ast.BlockStmt:
+				n.List = rewriteList(n.List)
+			case *ast.CaseClause:
+				n.Body = rewriteList(n.Body)
+			case *ast.CommClause:
+				n.Body = rewriteList(n.Body)
+			}
+			return true
+		})
+	}
+	if used {
+		astutil.AddImport(fset, f, hookPkg)
+	}
+	if !astutil.UsesImport(f, "time") {
+		astutil.DeleteImport(fset, f, "time")
+	}
 	f.Comments = nil
 	var buf bytes.Buffer
 	if err := format.Node(&buf, fset, f); err != nil {
